@@ -155,8 +155,10 @@ let fmt_out name r =
             (dec_of_n blobs) (dec_of_n next) (dec_of_n corr) (if has then 1 else 0))
   | RAlive b -> (name ^ (if b then " alive" else " dead"))
 
+let pending_evs : ev list ref = ref []
 let do_op name o =
   let (s', r) = step_q (n_of_int !st_k) !st_cfg !st o in
+  pending_evs := !pending_evs @ step_evs (n_of_int !st_k) !st_cfg !st s' o;
   (* the specification's answer, evaluated on the state the query ran in; the ghost flag of the
      known class F2 is reported so that the check can classify *)
   (match spec_answer !st o with
@@ -319,6 +321,45 @@ let cmd_idx args =
   | _ -> emit "*"
 let () = handlers := ("idx", cmd_idx) :: !handlers
 
+
+(* ---------- traces ---------- *)
+let fid_str (k, i) = Printf.sprintf "t.%s.%s" (dec_of_n i) (match k with FBlob -> "blob" | FIndex -> "index")
+let ev_str = function
+  | EvCreate f -> "create:" ^ fid_str f
+  | EvOpen f -> "open:" ^ fid_str f
+  | EvAppend (f, off, len) -> Printf.sprintf "append@%s+%s:%s" (dec_of_n off) (dec_of_n len) (fid_str f)
+  | EvWriteAt (f, off, len) -> Printf.sprintf "writeat@%s+%s:%s" (dec_of_n off) (dec_of_n len) (fid_str f)
+  | EvSync f -> "sync:" ^ fid_str f
+let parse_fid p =
+  (* t.<id>.blob | t.<id>.index *)
+  match String.split_on_char '.' p with
+  | [_; id; "blob"] -> Some (FBlob, n_of_string id)
+  | [_; id; "index"] -> Some (FIndex, n_of_string id)
+  | _ -> None
+let parse_ev tok =
+  if String.length tok > 0 && tok.[String.length tok - 1] = '!' then None else
+  match String.index_opt tok ':' with
+  | None -> None
+  | Some c ->
+    let k = String.sub tok 0 c and p = String.sub tok (c + 1) (String.length tok - c - 1) in
+    (match parse_fid p with
+     | None -> None
+     | Some f ->
+       let offlen s = (match String.split_on_char '+' s with [a; b] -> (n_of_string a, n_of_string b) | _ -> failwith "offlen") in
+       if k = "create" then Some (EvCreate f) else if k = "open" then Some (EvOpen f) else if k = "sync" then Some (EvSync f)
+       else if String.length k > 7 && String.sub k 0 7 = "append@" then let (o, l) = offlen (String.sub k 7 (String.length k - 7)) in Some (EvAppend (f, o, l))
+       else if String.length k > 8 && String.sub k 0 8 = "writeat@" then let (o, l) = offlen (String.sub k 8 (String.length k - 8)) in Some (EvWriteAt (f, o, l))
+       else None)
+let cmd_trace = function
+  | ["on"] -> pending_evs := []; emit "trace on"
+  | ["off"] -> emit "trace off"
+  | _ -> spec_pending := "tr " ^ String.concat " " (List.map ev_str !pending_evs); pending_evs := []; emit "*"
+let cmd_judge toks =
+  let evs = List.filter_map parse_ev toks in
+  let h = judge_from ev_harmless [] evs and a = judge_from ev_header_synced [] evs and b = judge_from ev_index_after_sync [] evs in
+  emit (Printf.sprintf "judge harmless=%b header_synced=%b index_after_sync=%b" h a b)
+let () = handlers := ("judge", cmd_judge) :: ("trace", cmd_trace) :: (List.filter (fun (n, _) -> n <> "trace") !handlers)
+
 (* after the script damages a file byte-wise the L3 model no longer predicts outcomes: wildcard *)
 let tainted = ref false
 let run_script path outpath =
@@ -352,7 +393,7 @@ let main () =
   let n = Array.length Sys.argv in
   let i = ref 1 in
   while !i + 1 < n do
-    tainted := false; Hashtbl.reset probes; Hashtbl.reset blooms; Hashtbl.reset raws; st := init_storage; st_k := 4; st_lazy := false;
+    tainted := false; pending_evs := []; Hashtbl.reset probes; Hashtbl.reset blooms; Hashtbl.reset raws; st := init_storage; st_k := 4; st_lazy := false;
     st_cfg := { c_dup = true; c_maxrec = n_of_int 1000000; c_maxsize = n_of_int 1000000000 };
     run_script Sys.argv.(!i) Sys.argv.(!i + 1);
     i := !i + 2
